@@ -399,6 +399,8 @@ package lua
 //@ requires Inv_api(ls) && nargs >= 0 && top(ls) - base(ls) >= nargs + 1
 //@ ensures  Inv_api(ls) && ls.reg == old(ls.reg) && ls.currentFrame == old(ls.currentFrame) && base(ls) == old(base(ls)) && ls.G == old(ls.G)
 //@ ensures  ls.stack == old(ls.stack) && (old($inv(ls.stack)) ==> $inv(ls.stack) && $sp(ls.stack) == old($sp(ls.stack))) && ls.Panic == old(ls.Panic) && (old(uvsValid(ls)) ==> uvsValid(ls))
+//@ ensures  ls.currentFrame != nil ==> unchanged(ls.currentFrame) && (old(Frame(ls)) ==> Frame(ls) && ls.currentFrame.Fn.Proto == old(ls.currentFrame.Fn.Proto) && nreg(ls) == old(nreg(ls)))
+//@ ensures  old(MetaOK(ls)) ==> MetaOK(ls)
 //@ ensures  nret >= 0 ==> top(ls) == old(top(ls)) - nargs - 1 + nret
 //@ ensures  nret < 0 ==> top(ls) >= old(top(ls)) - nargs - 1
 //@ ensures  forall k int :: base(ls) <= k && k < old(top(ls)) - nargs - 1 ==> ls.reg.array[k] == old(ls.reg.array[k])
@@ -440,7 +442,7 @@ package lua
 
 //@ func (*LState).PCall$1 [C05 C10 C12]
 //@ assume PCall recovery: at the moment the deferred closure runs the call-stack depth is at least the depth at PCall entry (sp <= Sp()), base <= top, and the registry/call-stack representation invariants hold (whole-execution facts, assumed)
-//@ requires ls != nil && ls.reg != nil && Inv_reg(ls.reg) && ls.stack != nil && $inv(ls.stack) && 0 <= sp && sp <= $sp(ls.stack) && 0 <= base && base <= ls.reg.top && ls.G != nil
+//@ requires ls != nil && ls.reg != nil && Inv_reg(ls.reg) && Inv_api(ls) && ls.stack != nil && $inv(ls.stack) && 0 <= sp && sp <= $sp(ls.stack) && 0 <= base && base <= ls.reg.top && ls.G != nil && (ls.currentFrame != nil ==> ls.currentFrame.Fn != nil)
 //@ ensures  "panic-mode-restored": ls.Panic == oldpanic
 //@ ensures  "depth-restored": $sp(ls.stack) == sp && (sp == 0 ==> ls.currentFrame == nil)
 //@ requires uvsValid(ls)
